@@ -314,7 +314,7 @@ def run_shard(spec, rec):
     rec.feat("literal-battery")
     # repetition battery: every token repeated up to the length bound in every kind of position (long flat strings: the
     # lexer, the parser and the evaluator must not recurse once per repetition)
-    pieces = TOKENS + ["!@", ".a", "[0]", ",0", "&&@", "||@", "==1", ".*", "..a", "[*]", ",*", ":", "::", "[?@]", "@.a,", "1,", "'a',", " @ ", "- ", "! ", "$.a ", "@<1&&"]
+    pieces = TOKENS + ["!@", ".a", "[0]", ",0", "&&@", "||@", "==1", ".*", "..a", "[*]", ",*", ":", "::", "[?@]", "@.a,", "1,", "'a',", " @ ", "- ", "! ", "$.a ", "@<1&&", "<@", "==@", "<1", "!=@", ">=1", "<=$", "== 1 ", "<'a'", "@<", "@==", "1<", "&&@<", "||1==", "<@.a", "<length(@)"]
     templates = ["$[?%s@]", "$[?%s@.a==1]", "$[?@%s]", "$%s", "$[%s]", "$[?@==%s1]", "$[?%s]", "$[?@.a%s==1]", "$[?count(@%s)>1]", "$[?f(%s)]", "$[?@&&%s@]", "$[0%s]",
                  "$.a[?@[?%s@]]", "$[?length(%s)==1]", "$[?$%s]", "%s", "$[?match(@%s,'a')]", "$['%s']", "$[?@=='%s']"]
     shard_no = int(str(spec.get("seed", "0/0")).split("/")[-1]) if str(spec.get("seed", "")).split("/")[-1].isdigit() else 0
